@@ -1,6 +1,6 @@
 """C20 — pipe_asdf emits count, width and the concatenated raw bytes per field.
 
-Tie: [C] correspondence.  The REAL unpack_to_pipe (and, for a few cases, the real CLI `python -m abacusnbody.data.pipe_asdf`)
+Tie: [C] correspondence.  The REAL unpack_to_pipe (and, for a few cases, the real command line entry point pipe_asdf.main())
 is run on synthetic ASDF files (uncompressed, and 'blsc'-compressed through a write-side shim so that the real
 BloscCompressor.decompress sits in the read path) writing into a real OS pipe; the bytes that arrive and the outcome class
 are compared with the hand-written model of coq/theories/C20/Model.v evaluated by vm_compute, and judged by an oracle
@@ -123,6 +123,7 @@ def _write_files(tmp, case):
     import asdf
     import numpy as np
     from abacusnbody.data.asdf import BloscCompressor
+    _register_extension()
     paths = []
     for i, f in enumerate(case['files']):
         path = os.path.join(tmp, f'f{i}.asdf')
@@ -145,6 +146,21 @@ def _write_files(tmp, case):
             af.write_to(path)
         paths.append(path)
     return paths
+
+
+def _register_extension():
+    """/repo registers the 'blsc' extension through its egg-info entry point; a scratch worktree (VERIF_REPO) has no
+    egg-info, so register the extension object of the tree under test by hand (harmless when already present)."""
+    import asdf
+    from abacusnbody.data.asdf import AbacusExtension
+    if not any(isinstance(getattr(e, 'delegate', e), AbacusExtension) for e in asdf.get_config().extensions):
+        asdf.get_config().add_extension(AbacusExtension())
+
+
+_CLI = ('import sys, asdf; from abacusnbody.data.asdf import AbacusExtension; '
+        'any(isinstance(getattr(e, "delegate", e), AbacusExtension) for e in asdf.get_config().extensions) or '
+        'asdf.get_config().add_extension(AbacusExtension()); '
+        'from abacusnbody.data import pipe_asdf; sys.argv[0] = "pipe_asdf"; pipe_asdf.main()')
 
 
 class _Tty:
@@ -171,6 +187,7 @@ def impl_cases(payload):
     import threading
 
     from vlib.implrun import classify
+    _register_extension()
     from abacusnbody.data import pipe_asdf
     results = []
     for case in payload['cases']:
@@ -178,7 +195,7 @@ def impl_cases(payload):
         try:
             paths = _write_files(tmp, case)
             if case['via'] == 'cli':
-                cmd = [sys.executable, '-m', 'abacusnbody.data.pipe_asdf']
+                cmd = [sys.executable, '-c', _CLI]  # = the console script `pipe_asdf`, with the extension registered
                 for f in case['fields']:
                     cmd += ['-f', f]
                 p = subprocess.run(cmd + paths, stdout=subprocess.PIPE, stderr=subprocess.PIPE, timeout=300)
